@@ -84,11 +84,20 @@ ClParamGroup(r) ==
   LET nf == Cardinality({ i \in DOMAIN r.present : r.present[i] }) IN
   << <<"error-iff-exclusive-violated-or-required-missing", r.error = ((r.exclusive /\ nf > 1) \/ (r.required /\ nf = 0))>> >>
 
+\* ---- access protocol of jaccarddist_matrix (BulkDist!TakeChunk / ArrayCall): one container access per chunk, in order, with the
+\* selected reference ids of that chunk, followed by one meter increment of the chunk length per query
+ExpectedAccess(sel, size, nq) ==
+  LET cs == IF size = 0 THEN <<<<0, Len(sel)>>>> ELSE Chunks(Len(sel), size, 0) IN
+  FlattenSeq([c \in DOMAIN cs |->
+     LET part == SubSeq(sel, Min2(cs[c][1], Len(sel)) + 1, Min2(cs[c][2], Len(sel))) IN
+       <<[e |-> "get", idx |-> part, d |-> 0]>> \o [q \in 1..nq |-> [e |-> "inc", idx |-> <<>>, d |-> Len(part)]]])
+ClAccess(r) == << <<"chunk-access-protocol", r.events = ExpectedAccess(r.sel, r.size, r.nq)>> >>
+
 ClProgress(r) ==
   << <<"meter-protocol", Follows(r.total, r.events, r.returned)>>,
      <<"total-is-the-amount-of-work", r.total = r.expected_total>> >>
 
-Clauses(r) == CASE r.op = "progress" -> ClProgress(r) [] r.op = "taxon" -> ClTaxon(r) [] r.op = "chunks" -> ClChunks(r) [] r.op = "generic" -> ClGeneric(r)
+Clauses(r) == CASE r.op = "progress" -> ClProgress(r) [] r.op = "access" -> ClAccess(r) [] r.op = "taxon" -> ClTaxon(r) [] r.op = "chunks" -> ClChunks(r) [] r.op = "generic" -> ClGeneric(r)
                 [] r.op = "dense" -> ClDense(r) [] r.op = "labels" -> ClLabels(r) [] r.op = "kmerspec" -> ClKmerSpec(r)
                 [] r.op = "dmat" -> ClDmat(r) [] r.op = "paramgroup" -> ClParamGroup(r)
 ASSUME PrintT(ToJson(Verdict(Recs, Clauses)))
